@@ -209,6 +209,32 @@ func c11OnlyMatchedDeleted(r *an.Run) {
 		}
 		r.Check(usesOn == fileParam, short(f)+"|uses-file", usesCall.Pos(), "usage is tested on the rewritten file")
 	}
+	// nothing is carried from one matched import to the next: besides the position in the list, the loop header
+	// merges no value that an iteration assigns (names declared in front of the loop keep what the previous
+	// import left in them when this one records nothing)
+	for _, in := range il.Loop.Header.Instrs {
+		phi, ok := in.(*ssa.Phi)
+		if !ok || ssa.Value(phi) == il.Index || phi == il.Phi {
+			continue
+		}
+		carries := false
+		for i, e := range phi.Edges {
+			if !il.Loop.Blocks[phi.Block().Preds[i]] || e == ssa.Value(phi) {
+				continue
+			}
+			if add, ok := e.(*ssa.BinOp); ok && add.X == ssa.Value(phi) {
+				if _, isc := an.ConstInt(add.Y); isc {
+					continue
+				}
+			}
+			carries = true
+		}
+		name := phi.Comment
+		if name == "" {
+			name = phi.Name()
+		}
+		r.Check(!carries, short(f)+"|carried|"+name, phi.Pos(), "%s does not carry the value of %s from one matched import to the next", short(f), name)
+	}
 	// per-iteration freshness of lookup targets
 	for _, c := range callsInLoop(il.Loop, dataPath+".Lookup") {
 		tgt := an.Root(an.Unwrap(c.Common().Args[2]))
